@@ -65,8 +65,8 @@ def gen(ctx):
             if h[0]["a"]["be"] == "mmap" and n % 3 == 0:
                 extra.append([{"op": "init", "a": dict(h[0]["a"], be="mmapfile")}] + [{"op": a["op"], "a": a["a"]} for a in h[1:]])
         prog += [x for h in extra for x in h]
-        events = run_harness("guest", prog, os.path.join(WORK, "gen_guest_%s.ev.ndjson" % ctx.pid))
-        if len(events) != len(prog):
+        events = run_harness("guest", prog, os.path.join(WORK, "gen_guest_%s.ev.ndjson" % ctx.pid), ctx=ctx)
+        if len(events) != len(prog) and ctx.violations == 0:
             raise ToolError("harness returned %d events for %d program lines" % (len(events), len(prog)))
         judge_chunks(ctx, "gent_guest_" + ctx.pid, events, 120000)
         ctx.cov["gen_tests_replayed"] += covered
@@ -227,7 +227,7 @@ def traces(ctx, zst=None):
     prog = []
     for _ in range(nhist):
         prog += rnd_history(ctx.rnd, nops, zst)
-    events = run_harness("guest", prog, os.path.join(WORK, "tr_guest_%s.ev.ndjson" % ctx.pid))
+    events = run_harness("guest", prog, os.path.join(WORK, "tr_guest_%s.ev.ndjson" % ctx.pid), ctx=ctx)
     judge_chunks(ctx, "tr_guest_" + ctx.pid, events)
     ctx.cov["traces_validated_against_impl"] += nhist
     ctx.sample({"kind": "recorded history validated by Trace_GuestMem", "events":
@@ -300,7 +300,7 @@ def run_c14(ctx):
         edges = [e for e in parse_tagged(r.out_path, "EDGE") if e[0]["act"]["op"].startswith(("s_", "rs_"))]
         hists, covered = edges_to_histories(inits, edges, chunk=400)
         prog = [{"op": a["op"], "a": a["a"]} for h in hists for a in h]
-        events = run_harness("guest", prog, os.path.join(WORK, "gen_guest_c14.ev.ndjson"))
+        events = run_harness("guest", prog, os.path.join(WORK, "gen_guest_c14.ev.ndjson"), ctx=ctx)
         judge_chunks(ctx, "gent_guest_c14", events, 120000)
         ctx.cov["gen_tests_replayed"] += covered
         ctx.cov["traces_validated_against_impl"] += len(hists)
@@ -313,7 +313,7 @@ def run_c14(ctx):
     prog = []
     for _ in range(nhist):
         prog += rnd_history_c14(ctx.rnd, nops)
-    events = run_harness("guest", prog, os.path.join(WORK, "tr_guest_c14.ev.ndjson"))
+    events = run_harness("guest", prog, os.path.join(WORK, "tr_guest_c14.ev.ndjson"), ctx=ctx)
     judge_chunks(ctx, "tr_guest_c14", events)
     ctx.cov["traces_validated_against_impl"] += nhist
     ctx.sample({"kind": "recorded scripted-stream history validated by Trace_GuestMem", "events":
